@@ -22,6 +22,7 @@ import itertools
 import json
 import multiprocessing
 import os
+import re
 import signal
 import subprocess
 import sys
@@ -152,12 +153,31 @@ def replay(mod, path):
     return 0
 
 
+_VOLATILE = [(re.compile(r'/[\w/.-]*exactly-verif-\w+/w\d+-\w+'), '<W>'),
+             (re.compile(r'exactly-[a-z0-9_]{8}\b'), 'exactly-<R>'),
+             (re.compile(r'\b0x[0-9a-f]{6,}\b'), '<ADDR>'),
+             (re.compile(r'\(\d+\.\d+s\)'), '(<T>s)')]
+
+
+def normalise(x):
+    """Remove run-specific names (scratch world, sandbox suffix, addresses, durations) from error text."""
+    if isinstance(x, str):
+        for rx, rep in _VOLATILE:
+            x = rx.sub(rep, x)
+        return x
+    if isinstance(x, (list, tuple)):
+        return [normalise(v) for v in x]
+    if isinstance(x, dict):
+        return {k: normalise(v) for k, v in x.items()}
+    return x
+
+
 def _replay_subprocess(prop, path):
     cmd = [os.path.join(VERIF, 'check'), prop, '--replay', path]
     p = subprocess.run(cmd, stdout=subprocess.PIPE, stderr=subprocess.STDOUT, text=True)
     for line in p.stdout.split('\n'):
         if line.startswith('REPLAY-RESULT '):
-            return json.loads(line[len('REPLAY-RESULT '):])['errs']
+            return normalise(json.loads(line[len('REPLAY-RESULT '):])['errs'])
     return None
 
 
